@@ -100,10 +100,13 @@ def oracle(e, idx):
             'dur': (lo, hi), 'agg': agg, 'total': float(cum[-1] - 1), 'cum_last': float(cum[-1])}
 
 
-def stats_for(q, e, idx, tmp=None):
+def stats_for(q, e, idx, tmp=None, periods=252):
     eq = pd.DataFrame({'Equity': list(e)}, index=list(idx))
     alloc = pd.DataFrame({'EQ:A': [1.0] * len(e)}, index=list(idx))
-    js = q.JSONStatistics(eq.copy(), alloc, output_filename=tmp or 'statistics.json')
+    if periods == 252:
+        js = q.JSONStatistics(eq.copy(), alloc, output_filename=tmp or 'statistics.json')
+    else:
+        js = q.JSONStatistics(eq.copy(), alloc, output_filename=tmp or 'statistics.json', periods=periods)
     return js, js.statistics['strategy']
 
 
@@ -123,10 +126,11 @@ def run_case(case):
             idx.append(d)
         d += D.timedelta(days=1)
     o = oracle(e, idx)
+    P = case.get('periods', 252)
     fd, tmp = tempfile.mkstemp(prefix='vq_stats_', suffix='.json')
     os.close(fd)
     try:
-        js, s = stats_for(q, e, idx, tmp)
+        js, s = stats_for(q, e, idx, tmp, P)
         # returns / cumulative returns
         got_r = [v for _, v in s['returns']]
         got_c = [v for _, v in s['cum_returns']]
@@ -168,24 +172,24 @@ def run_case(case):
             if not close(float(ma[k]), v, 1e-8, 1e-3):
                 raise Violation('reported monthly return %s = %r, expected %r' % (k, ma[k], v))
         # CAGR, Sharpe, Sortino
-        cagr = o['cum_last'] ** (252.0 / n) - 1
+        cagr = o['cum_last'] ** (float(P) / n) - 1
         if not close(float(s['cagr']), cagr, 1e-9, 1e-6):
-            raise Violation('CAGR %r, final cumulative return ^ (252/%d) - 1 = %r' % (float(s['cagr']), n, cagr))
+            raise Violation('CAGR %r, final cumulative return ^ (%s/%d) - 1 = %r' % (float(s['cagr']), P, n, cagr))
         r = o['r']
         mx = max(abs(x) for x in r)
         sd = pstd(r)
-        cls = [case['shape']]
+        cls = [case['shape'], 'periods_%s' % P]
         if mx > 0 and sd >= 1e-6 * mx:
-            want = math.sqrt(252) * (math.fsum(r) / n) / sd
+            want = math.sqrt(P) * (math.fsum(r) / n) / sd
             if not close(float(s['sharpe']), want, 1e-7, 1e-6):
-                raise Violation('Sharpe %r, sqrt(252) x mean / population deviation = %r' % (float(s['sharpe']), want))
+                raise Violation('Sharpe %r, sqrt(%s) x mean / population deviation = %r' % (float(s['sharpe']), P, want))
             cls.append('sharpe_checked')
         neg = [x for x in r if x < 0]
         if len(neg) >= 2 and pstd(neg) >= 1e-6 * max(abs(x) for x in neg):
-            want = math.sqrt(252) * (math.fsum(r) / n) / pstd(neg)
+            want = math.sqrt(P) * (math.fsum(r) / n) / pstd(neg)
             if not close(float(s['sortino']), want, 1e-7, 1e-6):
-                raise Violation('Sortino %r, sqrt(252) x mean / population deviation of negative returns = %r' % (
-                    float(s['sortino']), want))
+                raise Violation('Sortino %r, sqrt(%s) x mean / population deviation of negative returns = %r' % (
+                    float(s['sortino']), P, want))
             cls.append('sortino_checked')
         if not close(float(s['mean_returns']), math.fsum(r) / n, 1e-9, 1e-6):
             raise Violation('mean return %r != %r' % (float(s['mean_returns']), math.fsum(r) / n))
@@ -193,7 +197,12 @@ def run_case(case):
             raise Violation('deviation of returns %r, population deviation %r' % (float(s['stdev_returns']), sd))
         # tearsheet == JSON
         eq = pd.DataFrame({'Equity': list(e)}, index=list(idx))
-        tr = TearsheetStatistics(eq.copy()).get_results(eq.copy())
+        ts_obj = TearsheetStatistics(eq.copy()) if P == 252 else TearsheetStatistics(eq.copy(), periods=P)
+        tr = ts_obj.get_results(eq.copy())
+        if case.get('benchmark'):
+            # the same tearsheet object then serves the benchmark curve (as plot_results does): the strategy's results
+            # must not change under our feet
+            ts_obj.get_results(pd.DataFrame({'Equity': list(case['benchmark'])}, index=list(idx)))
         pairs = [('sharpe', float(tr['sharpe']), float(s['sharpe'])),
                  ('max_drawdown', float(tr['max_drawdown']), float(s['max_drawdown'])),
                  ('max_drawdown_pct', float(tr['max_drawdown_pct']), float(s['max_drawdown'])),
@@ -225,12 +234,12 @@ def run_case(case):
             beq = pd.DataFrame({'Equity': list(be)}, index=list(idx))
             eq0 = pd.DataFrame({'Equity': list(e)}, index=list(idx))
             alloc = pd.DataFrame({'EQ:A': [1.0] * n}, index=list(idx))
-            jb = q.JSONStatistics(eq0, alloc, benchmark_curve=beq, output_filename=tmp).statistics
+            jb = q.JSONStatistics(eq0, alloc, benchmark_curve=beq, output_filename=tmp, periods=P).statistics
             sb, ss = jb['benchmark'], jb['strategy']
             if abs(float(sb['max_drawdown']) - bo['maxdd']) > 1e-9:
                 raise Violation('benchmark max drawdown %r, definition gives %r' % (float(sb['max_drawdown']), bo['maxdd']))
-            if not close(float(sb['cagr']), bo['cum_last'] ** (252.0 / n) - 1, 1e-9, 1e-6):
-                raise Violation('benchmark CAGR %r, definition gives %r' % (float(sb['cagr']), bo['cum_last'] ** (252.0 / n) - 1))
+            if not close(float(sb['cagr']), bo['cum_last'] ** (float(P) / n) - 1, 1e-9, 1e-6):
+                raise Violation('benchmark CAGR %r, definition gives %r' % (float(sb['cagr']), bo['cum_last'] ** (float(P) / n) - 1))
             for per, key in (('monthly', 'monthly_agg_returns'), ('yearly', 'yearly_agg_returns')):
                 got = dict(((tuple(k) if isinstance(k, (tuple, list)) else (k,)), float(v)) for k, v in sb[key])
                 for k, v in bo['agg'][per].items():
@@ -245,7 +254,7 @@ def run_case(case):
             cls.append('with_benchmark')
         # scale invariance
         k2 = 2.0 ** case['pow2']
-        _, s2 = stats_for(q, [x * k2 for x in e], idx, tmp)
+        _, s2 = stats_for(q, [x * k2 for x in e], idx, tmp, P)
         for k in ('max_drawdown', 'cagr', 'sharpe', 'sortino', 'max_drawdown_duration', 'mean_returns', 'stdev_returns'):
             a, b = float(s[k]), float(s2[k])
             if not (a == b or (math.isnan(a) and math.isnan(b))):
@@ -253,7 +262,7 @@ def run_case(case):
         if [v for _, v in s2['drawdowns']] != got_dd:
             raise Violation('drawdown series changes when equity is multiplied by 2^%d' % case['pow2'])
         c = case['scale']
-        _, s3 = stats_for(q, [x * c for x in e], idx, tmp)
+        _, s3 = stats_for(q, [x * c for x in e], idx, tmp, P)
         for k in ('max_drawdown', 'cagr'):
             if not close(float(s[k]), float(s3[k]), 1e-9, 1e-6):
                 raise Violation('%s changes from %r to %r when equity is multiplied by %r' % (k, float(s[k]), float(s3[k]), c))
@@ -306,7 +315,8 @@ def cases(draw):
     bench = None
     if draw(st.sampled_from([False, True])):
         bench = build_curve(draw(st.integers(0, 2 ** 31)), n, draw(st.sampled_from(SHAPES)), draw(st.sampled_from([100.0, 5e4])))
-    return {'shape': shape, 'start': [d0.year, d0.month, d0.day], 'equity': e, 'benchmark': bench, 'pow2': draw(st.sampled_from([1, -3, 10, 4])),
+    return {'shape': shape, 'start': [d0.year, d0.month, d0.day], 'equity': e, 'benchmark': bench,
+            'periods': draw(st.sampled_from([252, 252, 52, 12, 365])), 'pow2': draw(st.sampled_from([1, -3, 10, 4])),
             'scale': draw(st.sampled_from([3.7, 0.01, 1e3, 1.1, 0.37]))}
 
 
